@@ -48,7 +48,7 @@ impl<T: Iterator<Item = Token>> TryFrom<&mut Peekable<T>>
             iter.next_separator_eq_or_err(')')?;
             let start = start
                 .text()
-                .filter(|txt| !txt.eq_ignore_ascii_case("MIN"))
+                .filter(|txt| *txt != "MIN")
                 .map(|t| match t.parse::<i64>() {
                     Ok(lit) => LitOrRef::Lit(lit),
                     Err(_) => LitOrRef::Ref(t.to_string()),
@@ -56,7 +56,7 @@ impl<T: Iterator<Item = Token>> TryFrom<&mut Peekable<T>>
 
             let end = end
                 .text()
-                .filter(|txt| !txt.eq_ignore_ascii_case("MAX"))
+                .filter(|txt| *txt != "MAX")
                 .map(|t| match t.parse::<i64>() {
                     Ok(lit) => LitOrRef::Lit(lit),
                     Err(_) => LitOrRef::Ref(t.to_string()),
